@@ -11,6 +11,8 @@ FLAVOURS = {
     "C02": (["dbg"], ["dbg", "rel"]),
     "C04": (["dbg", "rel"], ["dbg", "rel"]),
     "C05": (["dbg", "asan"], ["dbg", "asan"]),
+    # release too: hashbrown's debug assertions would stop a history before a leak can show
+    "C06": (["dbg", "rel"], ["dbg", "rel"]),
     "C07": (["dbg"], ["dbg", "asan"]),
     "C10": (["dbg", "rel"], ["dbg", "rel"]),
 }
@@ -86,7 +88,7 @@ def run_check(d, prop, tier, seed, replay, t0):
         n = cases
         if fl == "asan" and tier == "quick":
             n = max(20, cases // 3)
-        if fl == "rel" and prop not in ("C10", "C04"):
+        if fl == "rel" and prop not in ("C10", "C04", "C06"):
             n = max(20, cases // 2)
         results = d.spawn_workers(bins[fl], prop, tier, seed, n, fl, known_sigs, extra_env=(asan_env if fl == "asan" else None), current=(fl == "asan" or prop in CRASH_IS_VIOLATION))
         agg = d.aggregate(results)
